@@ -10,6 +10,7 @@ import CatiiProofs.Reindexed
 import CatiiProofs.Sliced
 import CatiiProofs.Collapsed
 import CatiiProofs.SetUpdates
+import CatiiProofs.ValidateGenBridge
 /-!
 # C07 — every operation preserves index well-formedness
 
@@ -34,6 +35,20 @@ open Catii.IIdx
 
 /-- the decidable predicate evaluated by the harness implies the proposition used in proofs -/
 theorem decidable_wf_sound (i : IIndex) (h : wf i = true) : WF i := wf_sound i h
+
+/-- `validate(check_comprehensive_unique=True)` as REGENERATED from the source on every run (`tools/translate_validate.py`:
+no entry under the common value; `len(rowids) == len(numpy.unique(rowids))`; `array_equal(rowids, numpy.unique(rowids))`; no row
+under two values of the same higher coordinates) accepts exactly the indexes the model's `validates` accepts - the two NumPy
+tests together ARE "strictly increasing" -/
+theorem generated_validate_is_the_modelled_validate (i : IIndex) : Gen.validateGen i = validates i :=
+  gen_validate_eq i
+
+/-- hence a well-formed index passes the library's own validation as the source defines it now -/
+theorem wellformed_passes_generated_validate (i : IIndex) (h : wf i = true) : Gen.validateGen i = true := by
+  rw [gen_validate_eq]
+  unfold wf at h
+  simp only [Bool.and_eq_true] at h
+  exact h.1.1.2
 
 /-- `shift_common` (given or library-chosen value) preserves well-formedness -/
 theorem shift_common_preserves_partial (i : IIndex) (h : WF i) (hnd : i.ndim ≤ 2) (v : Option Int)
